@@ -28,6 +28,8 @@ def configs():
         ("HamiltonianChain", {"mass": "matrix", "T": 2.0}), ("HamiltonianChain", {"mass": "scalar", "nograd": True}),
         ("HamiltonianChain", {"compressed": True, "bounds": True, "T": 4.0}),
         ("EnsembleSampler", {}), ("EnsembleSampler", {"bounds": True}),
+        # non-default tuning state: a stretch parameter other than 2; assessment intervals that have already grown
+        ("EnsembleSampler", {"alpha": 3.5}), ("GibbsChain", {"grown": True}), ("HamiltonianChain", {"grown": True, "T": 2.0}),
     ]
 
 
@@ -41,7 +43,7 @@ def build(cname, opt, sd):
     T = opt.get("T", 1.0)
     if cname == "EnsembleSampler":
         w = np.array([[0.5, 0.25, 1.5], [1.0, 0.5, 0.0], [-1.0, 2.0, 0.7], [0.2, 0.1, -0.6], [2.0, -1.0, 1.0]])
-        ch = EnsembleSampler(posterior=post, starting_positions=w, display_progress=False,
+        ch = EnsembleSampler(posterior=post, starting_positions=w, display_progress=False, **({"alpha": opt["alpha"]} if opt.get("alpha") else {}),
                              **({"bounds": (lo, hi)} if opt.get("bounds") else {}))
     elif cname == "HamiltonianChain":
         kw = {}
@@ -67,10 +69,51 @@ def build(cname, opt, sd):
             ch.set_non_negative(1, True)
             ch.set_boundaries(2, (0.5, 2.5))
             ch.set_non_negative(2, True)
+    if opt.get("grown"):
+        # a state every long run reaches: the acceptance-rate assessment interval has grown from its initial value
+        for p_ in getattr(ch, "params", []) or []:
+            p_.chk_int = 170
+        if hasattr(ch, "ES"):
+            ch.ES.chk_int = 20
     gens = find_generators(ch)
     for i, (path, owner, name) in enumerate(gens):
         setattr(owner, name, np.random.default_rng(sd * 100 + i))
     return ch, post
+
+
+def kernel_after_reload_part(ck, tier):
+    """C01: the reloaded sampler runs the SAME kernel -- with the generator states copied over, its continuation is sample for sample that of
+    the sampler that was never saved (non-default stretch parameter, temperature, bounds, mass)"""
+    import copy as _copy
+    import tempfile
+    from harness.mcmc_kit import find_generators as _fg
+    for cname, opt in (("EnsembleSampler", {}), ("EnsembleSampler", {"alpha": 3.5}), ("GibbsChain", {"limits": True, "T": 2.0}),
+                       ("PcaChain", {"bounds": True, "T": 2.0}), ("HamiltonianChain", {"mass": "matrix", "T": 2.0})):
+        ck.case(("reload-kernel", cname, tuple(sorted(opt.items()))))
+        try:
+            with contextlib.redirect_stdout(io.StringIO()), warnings.catch_warnings(), np.errstate(all="ignore"):
+                warnings.simplefilter("ignore")
+                live, post = build(cname, opt, 31 + seed())
+                live.advance(3 if cname == "EnsembleSampler" else 12)
+                with tempfile.TemporaryDirectory() as d:
+                    live.save(d + "/s.npz")
+                    kw = {"grad": post.grad} if cname == "HamiltonianChain" else {}
+                    clone = type(live).load(d + "/s.npz", posterior=post, **kw)
+                if cname == "HamiltonianChain":
+                    clone.steps = live.steps
+                for (path, owner, name), (path2, owner2, name2) in zip(_fg(live), _fg(clone)):
+                    setattr(owner2, name2, _copy.deepcopy(getattr(owner, name)))
+                live.advance(3 if cname == "EnsembleSampler" else 12)
+                clone.advance(3 if cname == "EnsembleSampler" else 12)
+                a = np.asarray(live.get_sample() if cname == "EnsembleSampler" else live.get_sample(burn=0), dtype=float)
+                b = np.asarray(clone.get_sample() if cname == "EnsembleSampler" else clone.get_sample(burn=0), dtype=float)
+        except Exception as ex:
+            ck.violation("save / load / advance raised", {"class": cname, "options": opt, "error": repr(ex)[:300]}, site=f"{cname}.load")
+            continue
+        if a.shape != b.shape or not np.array_equal(a, b):
+            k = int(np.argmax(np.any(a != b, axis=1))) if a.shape == b.shape else -1
+            ck.violation("the reloaded sampler applies the same kernel: with the same generator state its continuation equals that of the never-saved sampler",
+                         {"class": cname, "options": opt, "first_differing_row": k}, site=f"{cname}.load:kernel")
 
 
 def snapshot(obj, path="", out=None, depth=0):
